@@ -62,6 +62,7 @@ class _Coef:
         rs = np.random.RandomState(seed)
         self.k = rs.uniform(-1, 1, (4, 3))
         self.a, self.b = a, b
+        self.int_first = bool(seed % 3 == 0)
 
     def _f(self, i, r, base):
         t = (r - self.a) / (self.b - self.a)
@@ -74,6 +75,9 @@ class _Coef:
         return self._f(1, r, 1.5)
 
     def D(self, r):
+        # piecewise: a plain Python int on the inner third of the domain (the first points the solver samples), floats elsewhere
+        if self.int_first and r < self.a + (self.b - self.a) / 3:
+            return -1
         return -abs(self._f(2, r, 1.0)) - 0.2
 
     def E(self, r):
@@ -158,7 +162,9 @@ def _solve_case(case, spl, ps):
         solver.solveEquation(phi, rho)
         out.append((tuple(L.dims_order), [int(x) for x in L.starts], [int(x) for x in L.ends], np.array(phi.getAllData(), copy=True)))
         # history: the other entry point in between, then the very first right-hand side again -> bit-identical result expected
+        phi.getAllData()[:] = np.nan
         solver.solveEquationForFunction(phi, lambda x: 1.0 + 0.3 * x)
+        out.append((tuple(L.dims_order), [int(x) for x in L.starts], [int(x) for x in L.ends], np.array(phi.getAllData(), copy=True)))
         rho.getAllData()[:] = lo.expected_block(RHO, L)
         phi.getAllData()[:] = np.nan
         solver.solveEquation(phi, rho)
@@ -176,7 +182,7 @@ def _solve_case(case, spl, ps):
         return result(VIOL, cls=[base + "/exception"], events=ev, key="C14:exception:%s" % type(err[1]).__name__,
                       what="rank %d raised %r (p=%d, %d cells, lNeumann=%r, uNeumann=%r)" % (err[0], err[1], p, nc, lN, uN), witness=wit)
     sols = []
-    for q in range(5):
+    for q in range(6):
         G, cover = lo.assemble([res[q] for res in w.results], (nr, nth, nz))
         if not (cover == 1).all():
             return result(VIOL, cls=[base], events=ev, key="C14:coverage", what="phi blocks do not tile the grid", witness=wit)
@@ -202,6 +208,20 @@ def _solve_case(case, spl, ps):
         if ln or un:
             evn["neumann_modes"] += 1
         bc = ("N" if ln else "D") + ("N" if un else "D")
+        # function right-hand side (1 + 0.3 r), solved AFTER the discrete solves on the same solver object
+        gxq, gwq = rm.gauss_legendre(breaks, nq)
+        Vq = np.array([rm.basis_all(_T, p, xi) for xi in gxq])
+        bfun = (gwq * gxq * np.array([co.E(xi) for xi in gxq]) * (1.0 + 0.3 * gxq)) @ Vq
+        reff = Vn[:, keep] @ np.linalg.solve(K, bfun[keep])
+        gotf = sols[4][:, I, :]
+        tolf = C * rm.EPS * condK * kap_i * (float(np.abs(reff).max()) + 1e-3)
+        evn["profiles_compared"] += nz
+        cls.add("%s/bc-%s/function-rhs-after-discrete" % (base, bc))
+        ef = float(np.abs(gotf - reff[:, None]).max()) if np.all(np.isfinite(gotf)) else np.inf
+        if not ef <= tolf:
+            return result(VIOL, cls=sorted(cls), events={**ev, **evn}, key="C14:function-rhs/%s" % space,
+                          what="solveEquationForFunction (after discrete solves on the same solver; p=%d, %d cells, mode %d, bc %s, E(r) not 1): differs from the dense Galerkin solution of A phi''+...= E rho by %.3g (tol %.3g)"
+                          % (p, nc, m, bc, ef, tolf), witness=wit)
         for z in range(nz):
             cvec = np.linalg.solve(K.astype(complex), Mass @ rho_c[:, I, z])
             ref = Vn[:, keep] @ cvec
@@ -225,10 +245,10 @@ def _solve_case(case, spl, ps):
                       % (p, nc, quad, A, worst[3], worst[4], worst[5], Pn, worst[1], worst[2]), witness=wit)
     evn["identity_checks"] += 1
     cls.add("%s/repeat-after-other-entry-point" % base)
-    if not lo.bits_equal(sols[4], sols[0]):
+    if not lo.bits_equal(sols[5], sols[0]):
         return result(VIOL, cls=sorted(cls), events={**ev, **evn}, key="C14:repeated-solve-differs",
                       what="solving the same right-hand side again on the same solver (after solveEquationForFunction in between) gives a different result (max change %.3g)"
-                      % float(np.nanmax(np.abs(sols[4] - sols[0]))), witness=wit)
+                      % float(np.nanmax(np.abs(sols[5] - sols[0]))), witness=wit)
     # linearity and mode independence on the real code
     if evn["skipped_illconditioned_modes"] == 0:
         scale = max(float(np.abs(s_).max()) for s_ in sols[:3]) + 1e-300
@@ -278,6 +298,8 @@ def _manufactured_case(case, spl, ps):
     if phi_s.degree() > p:
         return result(SKIP, what="manufactured polynomial exceeds spline degree")
     Bp, Cp, Dp = Pn(rs.uniform(-0.5, 0.5, 2)), Pn([1.0 + rs.uniform(0, 1), rs.uniform(-0.1, 0.1)]), Pn([-1.0, -rs.uniform(0, 0.2)])
+    # the factor E in front of the right-hand side: 1 (default) or a positive function
+    Ep = Pn([1.0]) if case["seed"] % 2 else Pn([1.5 + rs.uniform(0, 1), 0.3])
     modes = [int(m) for m in np.fft.fftfreq(nth, 1 / nth)]
     lN = list(modes) if bc[0] == "N" else []
     uN = list(modes) if bc[1] == "N" else []
@@ -287,15 +309,15 @@ def _manufactured_case(case, spl, ps):
         comm = MPI.COMM_WORLD
         phi, rho = _grids(MPI, comm, eta, [1, 1])
         solver = ps.DiffEqSolver(quad, rspline, nr, nth, lNeumannIdx=lN, uNeumannIdx=uN, ddrFactor=lambda x: A,
-                                 drFactor=lambda x: float(Bp(x)), rFactor=lambda x: float(Cp(x)), ddThetaFactor=lambda x: float(Dp(x)), rhoFactor=lambda x: 1.0)
+                                 drFactor=lambda x: float(Bp(x)), rFactor=lambda x: float(Cp(x)), ddThetaFactor=lambda x: float(Dp(x)), rhoFactor=lambda x: float(Ep(x)))
         # one solver call handles all modes with the SAME rho function; the exact solution differs per mode,
         # so solve mode by mode with the matching right-hand side through a 1-mode trick: rho for mode m
         out = np.empty((nth, nr), dtype=complex)
         for I, m in enumerate(modes):
             m2 = float(m * m)
-            rho_m = A * phi_s.deriv(2) + Bp * phi_s.deriv(1) + Cp * phi_s - m2 * Dp * phi_s
+            rhs_m = A * phi_s.deriv(2) + Bp * phi_s.deriv(1) + Cp * phi_s - m2 * Dp * phi_s     # = E * rho
             phi.getAllData()[:] = np.nan
-            solver.solveEquationForFunction(phi, lambda x: rho_m(x))
+            solver.solveEquationForFunction(phi, lambda x: rhs_m(x) / Ep(x))
             out[I] = phi.getAllData()[I, 0, :]
         return out
 
@@ -314,7 +336,7 @@ def _manufactured_case(case, spl, ps):
     worst = 0.0
     tolmax = 0.0
     for I, m in enumerate(modes):
-        K, Mass, keep, _T = rm.galerkin_radial(breaks, p, quad // 2 + 1, lambda x: A, Bp, Cp, Dp, lambda x: 1.0, float(m * m), bc[0] == "N", bc[1] == "N")
+        K, Mass, keep, _T = rm.galerkin_radial(breaks, p, quad // 2 + 1, lambda x: A, Bp, Cp, Dp, Ep, float(m * m), bc[0] == "N", bc[1] == "N")
         condK = np.linalg.cond(K)
         if condK > 1e10:
             continue
@@ -322,8 +344,9 @@ def _manufactured_case(case, spl, ps):
         e = float(np.abs(out[I] - exact).max())
         ev["manufactured_profiles"] = ev.get("manufactured_profiles", 0) + 1
         if not e <= tol:
-            return result(VIOL, cls=[base], events=ev, key="C14:manufactured-solution/%s" % bc,
-                          what="manufactured polynomial solution (degree %d, bc %s, mode %d, A=%g) recovered with error %.3g (tol %.3g)" % (phi_s.degree(), bc, m, A, e, tol), witness=wit)
+            return result(VIOL, cls=[base], events=ev, key="C14:manufactured-solution/%s%s" % (bc, "" if Ep.degree() == 0 else "/function-rhs-with-E"),
+                          what="manufactured polynomial solution (degree %d, bc %s, mode %d, A=%g, E %s) through solveEquationForFunction recovered with error %.3g (tol %.3g)"
+                          % (phi_s.degree(), bc, m, A, "= 1" if Ep.degree() == 0 else "= %r" % (list(Ep.coef),), e, tol), witness=wit)
     return result(HELD, cls=[base], events=ev, n_eval=ev.get("manufactured_profiles", 0))
 
 
